@@ -19,6 +19,7 @@ mod taproot;
 mod lifecycle;
 mod spy;
 mod interop;
+mod wrappers;
 
 #[global_allocator]
 static ALLOC: lifecycle::SpyAlloc = lifecycle::SpyAlloc;
@@ -464,7 +465,8 @@ fn main() {
                 interop::toy_all_u16(&mut f);
                 1
             } else {
-                with_suite!(suite.as_str(), interop_one(seed, count, &mut f))
+                // + the suite crate's wrappers next to the generic entry points
+                with_suite!(suite.as_str(), interop_one(seed, count, &mut f)) + wrappers::run(suite.as_str(), seed, &mut f)
             };
             let _ = f.flush();
             println!("SUMMARY {}", json!({"events": k}));
